@@ -35,7 +35,8 @@ type CV struct {
 type modelReader struct {
 	o    *Obligation
 	solv *Solvers
-	pins []Term
+	pins     []Term
+	deadline time.Time
 	n    int
 	err  error
 }
@@ -51,8 +52,8 @@ func (m *modelReader) get(t Term) string {
 		return t.S
 	}
 	m.n++
-	if m.n > 400 {
-		m.err = fmt.Errorf("too many model lookups")
+	if m.n > 150 || (!m.deadline.IsZero() && time.Now().After(m.deadline)) {
+		m.err = fmt.Errorf("model extraction budget exhausted (%d lookups)", m.n)
 		return "0"
 	}
 	q := m.o.Query
@@ -62,7 +63,7 @@ func (m *modelReader) get(t Term) string {
 	file := filepath.Join(m.solv.dir, fmt.Sprintf("mv%d.smt2", m.n))
 	os.WriteFile(file, []byte(text), 0o644)
 	defer os.Remove(file)
-	out := m.solv.spawn([]string{"z3-new", "-T:20", file}, 25*time.Second)
+	out := m.solv.spawn([]string{"z3-new", "-T:6", file}, 8*time.Second)
 	lines := strings.SplitN(strings.TrimSpace(out), "\n", 2)
 	if len(lines) < 2 || strings.TrimSpace(lines[0]) != "sat" {
 		m.err = fmt.Errorf("model lookup for %s: %s", t.S, strings.TrimSpace(out))
@@ -445,7 +446,7 @@ func (P *Prog) replayOnRealCode(o *Obligation, file string) *ReplayResult {
 		rr.Why = "function outside the repository packages"
 		return rr
 	}
-	m := &modelReader{o: o, solv: x.solvRef}
+	m := &modelReader{o: o, solv: x.solvRef, deadline: time.Now().Add(75 * time.Second)}
 	entry := x.entry
 	var cvs []*CV
 	for _, p := range fn.Params {
